@@ -47,7 +47,7 @@ def r1_relative_seek(ctx):
                 continue
             sl = Slice(b, [l], transparent=re.compile(r"\bInto<U>>?::into$|\bFrom<.*>>?::from$|\bTryFrom<.*>>?::try_from$|\bResult::<T, E>::(unwrap|expect|unwrap_or)$"))
             has_sub = any(o[0] in ("Sub", "SubWithOverflow", "SubUnchecked") for o in sl.ops) or sl.has_call(r"::(wrapping_sub|checked_sub|saturating_sub|abs_diff)$")
-            ctx.check(has_sub, rule, [b.id, "seek", c.bb], "seek is a difference of positions",
+            ctx.check(has_sub, rule, [b.id, "seek"], "seek is a difference of positions",
                       "%s emits a control entry whose seek is a bare (cast) position accumulator (%s), i.e. an ABSOLUTE old-file position, while both patchers add "
                       "the field to the current position: after the first non-matching region every later diff block is applied at the wrong old offset and the "
                       "patch applies cleanly to different bytes than the new file" % (b.id, sorted({b.local_name(x) for x in sl.locals if b.locals[x].get('u')})[:3]),
